@@ -1,5 +1,6 @@
 """C03 — host, domain and SRV name validation implements the documented RFC grammar."""
 import json
+import os
 import re
 import shutil
 import threading
@@ -51,7 +52,8 @@ def par_tlc(ctx, jobs, parallel=None):
         w = j.get("workers", share)
         return ctx.tlc(j["dir"], j["module"], j["cfg"], workers=w, label=j["label"],
                        timeout=j.get("timeout", 1500), count=False,
-                       env={"JAVA_TOOL_OPTIONS": "-Xss64m -Xmx%dm -XX:ParallelGCThreads=%d" % (j.get("heap_mb", 5000), max(2, w))})
+                       env={"JAVA_TOOL_OPTIONS": "-Xss64m -Xmx%s -XX:ParallelGCThreads=%d"
+                            % (os.environ.get("VERIF_TLC_HEAP") or "%dm" % j.get("heap_mb", 5000), max(2, w))})
 
     with ThreadPoolExecutor(max_workers=parallel) as ex:
         futs = [ex.submit(one, j) for j in jobs]
